@@ -9,6 +9,7 @@ and every result is compared BIT FOR BIT (struct, slices, hfs, mfs, trans, data 
 import hashlib
 import itertools
 import json
+import os
 import sys
 
 import numpy as np
@@ -64,6 +65,8 @@ def program(a, b, c, f1, f2):
     yield 'swap_gate-charge', lambda: a.swap_gate(axes=(1, 2), charge=c.n)
     yield 'trace', lambda: yastn.trace(a, axes=(0, 3))
     yield 'vdot', lambda: yastn.vdot(a, c.conj().conj()) if a.n == c.n else yastn.vdot(a, a)
+    # opposite charges in U(1) (overlap vanishes by symmetry), equal charges in Z2 (it does not)
+    yield 'vdot-opposite-charges', lambda: yastn.vdot(yastn.ones(config=c.config, legs=c.get_legs(), n=c.config.sym.add_charges(c.n, signatures=(-1,))), c)
     yield 'add', lambda: a + 2 * a.transpose((0, 1, 2, 3))
     yield 'add-mismatched-fusion', lambda: f1 + f2
     yield 'tensordot-mismatched-fusion', lambda: yastn.tensordot(f1, f2.conj(), axes=((0, 1), (0, 1)))
@@ -106,24 +109,45 @@ def run(order, regime, cfgs, warmup=False):
     return res
 
 
-def main():
+REGIMES = ('cold', 'warm-forward', 'warm-reversed', 'warm-interleaved', 'warm-after-warmup', 'maxsize0', 'maxsize1', 'clear-every-3')
+
+
+def one(label):
+    """ one regime in THIS process (each regime gets a fresh interpreter, so state outside the lru caches cannot be carried over from the reference run) """
     cfgs = configs()
     names = list(cfgs)
-    ref = run(names, 'cold', cfgs)
-    report = {'operations': len(ref), 'regimes': [], 'mismatches': []}
     interleaved = [n for pair in itertools.zip_longest(names[::2], names[1::2][::-1]) for n in pair if n]
-    for label, order, regime, warm in (('warm-forward', names, 'warm', False), ('warm-reversed', names[::-1], 'warm', False), ('warm-interleaved', interleaved, 'warm', False),
-                                       ('warm-after-warmup', names, 'warm', True), ('maxsize0', names, 'maxsize0', False), ('maxsize1', interleaved, 'maxsize1', False),
-                                       ('clear-every-3', names[::-1], 'clear-every-3', False)):
-        got = run(order, regime, cfgs, warm)
+    order, regime, warm = {'cold': (names, 'cold', False), 'warm-forward': (names, 'warm', False), 'warm-reversed': (names[::-1], 'warm', False),
+                           'warm-interleaved': (interleaved, 'warm', False), 'warm-after-warmup': (names, 'warm', True), 'maxsize0': (names, 'maxsize0', False),
+                           'maxsize1': (interleaved, 'maxsize1', False), 'clear-every-3': (names[::-1], 'clear-every-3', False)}[label]
+    got = run(order, regime, cfgs, warm)
+    print(json.dumps({'results': [[k[0], k[1], v] for k, v in got.items()], 'administered': len(yastn.get_cache_info())}))
+
+
+def main():
+    import subprocess
+    import sys
+    from concurrent.futures import ThreadPoolExecutor
+
+    def spawn(label):
+        r = subprocess.run([sys.executable, os.path.abspath(__file__), '--one', label], capture_output=True, text=True)
+        d = json.loads(r.stdout.strip().splitlines()[-1])
+        return label, {(a, b): v for a, b, v in d['results']}, d['administered']
+    with ThreadPoolExecutor(max_workers=4) as ex:
+        outs = list(ex.map(spawn, REGIMES))
+    ref = outs[0][1]
+    report = {'operations': len(ref), 'regimes': [], 'mismatches': [], 'administered': outs[0][2]}
+    for label, got, _ in outs[1:]:
         report['regimes'].append(label)
         for key, val in got.items():
             if ref[key] != val:
                 report['mismatches'].append({'regime': label, 'configuration': key[0], 'operation': key[1]})
-    info = yastn.get_cache_info()
-    report['administered'] = len(info)
     print(json.dumps(report))
 
 
 if __name__ == '__main__':
-    main()
+    import sys
+    if len(sys.argv) == 3 and sys.argv[1] == '--one':
+        one(sys.argv[2])
+    else:
+        main()
